@@ -103,6 +103,24 @@ func (st LString) Type() LValueType { return LTString }
 // fmt.Formatter interface
 func (st LString) Format(f fmt.State, c rune) {
 	switch c {
+	case 'q':
+		// a literal the Lua lexer reads back as the same bytes (Go's %q uses \x.. and \u.... escapes)
+		buf := make([]byte, 0, len(st)+2)
+		buf = append(buf, '"')
+		for i := 0; i < len(st); i++ {
+			switch b := st[i]; b {
+			case '"', '\\', '\n':
+				buf = append(buf, '\\', b)
+			case '\r':
+				buf = append(buf, '\\', 'r')
+			case 0:
+				buf = append(buf, '\\', '0', '0', '0')
+			default:
+				buf = append(buf, b)
+			}
+		}
+		buf = append(buf, '"')
+		f.Write(buf)
 	case 'd', 'i':
 		if nm, err := parseNumber(string(st)); err == nil {
 			nm.Format(f, c)
